@@ -477,6 +477,11 @@ for pid in ("C01", "C02"):
 CHECKS["C03"]["runs"] = CHECKS["C03"]["runs"] + [_bf("run.mux.ts.bframes", 1)]
 CHECKS["C09"]["runs"] = CHECKS["C09"]["runs"] + [dict(OPUS, name="mux.fmp4.opus", prop="C01")]
 CHECKS["C10"]["runs"] = CHECKS["C10"]["runs"] + [dict([r for r in CHECKS["C11"]["runs"] if r["name"] == "step.fill"][0], name="step.fill.byteranges", prop="C11")]
+TSVA = _mx("run.mux.ts.video+audio48k", 1, 1, 5, 5, ["end", "cut", "observe"], VKINDS=2, ACLOCK=48000)  # audio clock rate != sample rate
+CHECKS["C01"]["runs"] = CHECKS["C01"]["runs"] + [TSVA]
+AVORDER = _mx("run.mux.fmp4.audio+video", 2, 5, 5, 5, _STD, VKINDS=2)
+for pid in ("C01", "C02"):
+    CHECKS[pid]["runs"] = CHECKS[pid]["runs"] + [AVORDER]
 # three parts in one file (a middle part: offset > 0 and data after it), few operations
 CHECKS["C17"]["runs"] = CHECKS["C17"]["runs"] + [
     {"name": "run.storage.equiv.3parts", "dir": "pkg/storage", "files": [S + "c17_storage.go", "rt/fs_model.go"], "fn": "VerifH_C17_storage", "workers": 16,
